@@ -73,7 +73,8 @@ def _phase_adder(wires):
         w = draw(_perm(wires))
         n = draw(st.integers(1, 4))
         full = draw(st.booleans()) or n == 1
-        mod = 2**n if full else draw(st.integers(2, 2**n - 1))
+        # mod != 2^n: "one extra wire in x_wires is required", i.e. mod (and x) must fit into n-1 wires
+        mod = 2**n if full else draw(st.integers(2, 2 ** (n - 1)))
         k = draw(st.integers(0, mod - 1))
         nww = 1 if not full else draw(st.sampled_from([0, 1]))
         x, ww = _split(w, [n, nww])
@@ -345,9 +346,10 @@ def _prod(wires):
 @reg("ChangeOpBasis", 2, "decomp", "composite")
 def _change_op_basis(wires):
     w = wires[:3]
-    return st.tuples(_small_unitary(w), _small_unitary(w), st.one_of(st.none(), _small_unitary(w))).map(
-        lambda t: {"op": "ChangeOpBasis", "w": list(w), "compute": t[0], "target": t[1], "uncompute": t[2] or {"op": "adjoint", "base": t[0]},
-                   "explicit": t[2] is not None})
+    # compute-uncompute pattern: the uncompute operator is the inverse of the compute operator (given explicitly or defaulted)
+    return st.tuples(_small_unitary(w), _small_unitary(w), st.booleans()).map(
+        lambda t: {"op": "ChangeOpBasis", "w": list(w), "compute": t[0], "target": t[1], "uncompute": {"op": "adjoint", "base": t[0]},
+                   "explicit": t[2]})
 
 
 def _build_cob(spec, build):
@@ -388,7 +390,7 @@ def _controlled_sequence(wires):
     @st.composite
     def mk(draw):
         w = draw(_perm(wires))
-        nc = draw(st.integers(1, 3))
+        nc = draw(st.integers(1, min(3, len(w) - 1)))
         base = draw(_small_unitary(w[nc:nc + 2]))
         return {"op": "ControlledSequence", "base": base, "cw": w[:nc]}
     return mk()
